@@ -22,7 +22,7 @@ def languages():
         for sub in sorted(os.listdir(p)):
             if os.path.isdir(os.path.join(p, sub)) and sub != "SharedRules":
                 out.append(d + "-" + sub)
-    return out
+    return out + ["es-mx", "en-za", "sv-fi", "fi-se", "id-sg", "vi-cy"]      # regional tags without a directory: same rules, some with the other decimal mark
 
 
 def operand_positions(rng, depth):
@@ -56,8 +56,12 @@ def operand_positions(rng, depth):
         return mrow(mi(rng.choice(["sin", "cos", "log", "f", "ln"])), mo("⁡"), mrow(mo("("), sub(), mo(")")))
     if r < 0.78:
         return mrow(el("munderover", mo(rng.choice(["∑", "∏", "∫"])), mrow(mi("k"), mo("="), P()), sub()), sub())
-    if r < 0.82:
+    if r < 0.80:
         return mrow(el("munder", mo("lim"), mrow(mi("x"), mo("→"), P())), sub())
+    if r < 0.82:
+        # under/over scripts of an ordinary base
+        return rng.choice([lambda: el("munderover", mi(rng.choice("xyz")), P(), sub()), lambda: el("munder", sub(), P()), lambda: el("mover", mi(rng.choice("xyz")), P()),
+                           lambda: el("munderover", sub(), sub(), P())])()
     if r < 0.87:
         rows, cols = rng.randrange(1, 3), rng.randrange(1, 4)
         return mrow(mo(rng.choice("([|")), el("mtable", *[el("mtr", *[el("mtd", sub() if rng.random() < 0.3 else P()) for _ in range(cols)]) for _ in range(rows)]), mo(rng.choice(")]|")))
@@ -69,19 +73,31 @@ def operand_positions(rng, depth):
         return mrow(sub(), mo("!"))
     if r < 0.97:
         return el("mover", sub(), mo(rng.choice(["¯", "^", "→"])))
-    if r < 0.985:
+    if r < 0.975:
         return mrow(P(), sub())            # implied times with a number
+    if r < 0.985:
+        return mrow(el(rng.choice(["msub", "msup"]), mi(rng.choice("xyzab")), P()), P(), sub())      # a numeric script directly followed by a number
     return el("mmultiscripts", mi("C"), P(), N("none"), N("mprescripts"), P(), N("none"))
 
 
-def plant(rng, tree, dec):
-    """fill the placeholders with distinct decimal literals written with the decimal mark `dec`; returns the literals"""
-    lits, used = [], set()
+def plant(rng, tree, dec, integers=0.0):
+    """fill the placeholders with distinct literals: decimals written with the decimal mark `dec`, and (with probability
+    `integers`) distinct 2-4 digit integers none of which is a part of another; returns the literals"""
+    lits, used, ints = [], set(), []
     for x in tree.walk():
         if x.tag == "mn" and x.text == "@":
+            if rng.random() < integers:
+                while True:
+                    v = str(rng.choice([rng.randrange(12, 99), rng.randrange(102, 999), rng.randrange(1023, 9999)]))
+                    if "0" not in v[-1:] and not any(v in o or o in v for o in ints) and not any(v in l for l in lits):
+                        ints.append(v)
+                        break
+                x.text = v
+                lits.append(v)
+                continue
             while True:
                 a, b = rng.randrange(11, 99), rng.randrange(11, 99)
-                if (a, b) not in used and b % 10 != 0:
+                if (a, b) not in used and b % 10 != 0 and not any(i in f"{a}{dec}{b}" for i in ints):
                     used.add((a, b))
                     break
             x.text = f"{a}{dec}{b}"
@@ -90,6 +106,9 @@ def plant(rng, tree, dec):
 
 
 FIXED = [
+    lambda: mrow(el("munderover", mi("x"), mn("@"), mn("@")), mo("+"), el("munder", mi("y"), mn("@")), mo("+"), el("mover", mi("z"), mn("@"))),
+    lambda: mrow(el("msub", mi("x"), mn("@")), mn("@")), lambda: mrow(el("msup", mi("x"), mn("@")), mn("@"), mi("y")), lambda: mrow(mn("@"), el("msub", mi("a"), mn("@")), mn("@")),
+    lambda: mrow(el("msubsup", mi("x"), mn("@"), mn("@")), mn("@")), lambda: mrow(mn("@"), mo("("), mn("@"), mo(")"), mn("@")),
     lambda: el("msup", mi("x"), mrow(mn("@"), mo("⁢"), el("mfrac", mrow(mi("a"), mo("+"), mn("@")), mrow(mi("c"), mo("+"), mn("@"))))),
     lambda: mrow(el("munder", mo("lim"), mrow(mi("x"), mo("→"), mn("@"))), el("mfrac", mrow(mi("f"), mo("⁡"), mrow(mo("("), mi("x"), mo(")")), mo("-"), mn("@")), mrow(mi("x"), mo("-"), mn("@")))),
     lambda: mrow(mn("@"), mo("+"), el("msup", mi("x"), mn("@")), mo("+"), el("mfrac", mn("@"), mn("@")), mo("+"), el("msqrt", mn("@"))),
